@@ -18,7 +18,7 @@ EXPLANATION = (
     "evaluated on the Yosys MRO): R-tr-hooks, R-tr-handlers, R-tr-optable (plus agreement of the Yosys and SV operator tables), "
     "R-tr-assign, R-tr-slice (incl. the Yosys size-cast forms x[msb:0] / zero padding), R-tr-width-cast, R-tr-conn (incl. the "
     "queue discipline of rtlir_tr_connection: first dequeued = writer, second = reader), R-tr-sigexpr, R-tr-for, R-tr-modname, "
-    "R-tr-constcache, R-layout-agree (Yosys struct literals: first field most significant, packed-array element 0 least "
+    "R-tr-constcache, R-tr-index-queue, R-tr-dedup-scope, R-tr-loop-state, R-tr-memo-scope, R-tr-ident-intact, R-layout-agree (Yosys struct literals: first field most significant, packed-array element 0 least "
     "significant). Flattening rules: R-C12-flatten -- a flat leaf port is connected to [c-1 : c-w] of the packed wire with a "
     "running MSB counter that starts at the struct width, is handed to a field before that field's width is subtracted, decreases "
     "by field.get_length() in declaration order and is asserted to end at 0; packed arrays iterate n-1..0 and advance by "
@@ -41,7 +41,8 @@ ASSUMPTIONS = [
 ]
 
 _SHARED = (T.rule_hooks, T.rule_handlers, T.rule_optable, T.rule_assign, T.rule_slice, T.rule_width_cast, T.rule_conn,
-           T.rule_sigexpr, T.rule_for, T.rule_modname, T.rule_constcache, T.rule_layout)
+           T.rule_sigexpr, T.rule_for, T.rule_modname, T.rule_constcache, T.rule_layout, T.rule_index_queue, T.rule_dedup_scope,
+           T.rule_loop_state, T.rule_memo_scope, T.rule_ident_intact)
 RULES = [partial(f, backend=BACKEND) for f in _SHARED]
 for _f, _g in zip(RULES, _SHARED):
     _f.__name__ = _g.__name__
@@ -115,6 +116,18 @@ MUTANTS = [
     _m('subcomp-wire-filter-ignores-marker', YS4, 'if c_n_dim or n_dim or "present" in wire:', 'if c_n_dim or n_dim:', 'R-C12-wire-forms'),
     _m('ifc-wire-filter-ignores-own-dims', YS3, 'if n_dim or ifc_ndim or "present" in wire_decl:', 'if n_dim or "present" in wire_decl:', 'R-C12-wire-forms'),
     _m('port-wire-filter-ignores-marker', YS1, '      if n_dim or "present" in dct:\n', '      if n_dim:\n', 'R-C12-wire-forms'),
+    # R-tr-loop-state / R-tr-memo-scope / R-tr-ident-intact on the Yosys classes
+    _m('ifc-member-array-type-leaks', YS3, "          else:\n            array_type = None\n            rtype = _rtype\n", "          else:\n            rtype = _rtype\n",
+       'R-tr-loop-state'),
+    dict(name='struct-width-memo-by-class-name', rule='R-tr-memo-scope', edits=[
+        dict(file=YS2, old="  def wire_struct_gen( s, id_, dtype, n_dim ):\n",
+             new="  _struct_nbits = {}\n\n  def _get_struct_nbits( s, dtype ):\n    name = dtype.get_class().__name__\n    if name not in s._struct_nbits:\n      s._struct_nbits[ name ] = dtype.get_length()\n    return s._struct_nbits[ name ]\n\n  def wire_struct_gen( s, id_, dtype, n_dim ):\n", count=1),
+        dict(file=YS2, old='      "msb" : dtype.get_length()-1,\n      "id_" : id_,\n      "n_dim" : n_dim,\n      "present" : True', new='      "msb" : s._get_struct_nbits( dtype )-1,\n      "id_" : id_,\n      "n_dim" : n_dim,\n      "present" : True', count=1)]),
+    dict(name='port-binding-truncated-by-precision', rule='R-tr-ident-intact', edits=[
+        dict(file=YS4, old='p_conn_tplt = ".{port_id: <15}( {port_wire_id} )"', new='p_conn_tplt = ".{port_id: <15}( {port_wire_id:^25.25} )"', count=1),
+        dict(file=YS4, old='port_wire_id = ( f"{c_id}__{_id}" ).center( 25 )', new='port_wire_id = f"{c_id}__{_id}"', count=1)]),
+    _m('port-name-prefix-slice', YS1, 'wire_template = "logic {packed_type: <8} {id_}{array_dim_str};"\n    in_conn_template', 'wire_template = "logic {packed_type: <8} {id_:.30}{array_dim_str};"\n    in_conn_template',
+       'R-tr-ident-intact'),
     # shared rules on the Yosys classes
     _m('yosys-assign-direction', YS1, 'return f"assign {rd} = {wr};"', 'return f"assign {wr} = {rd};"', 'R-tr-conn'),
     _m('yosys-part-select-inclusive', YS1, "_stop = stop-1", "_stop = stop", 'R-tr-slice'),
@@ -154,6 +167,9 @@ MUTANTS = [
        'R-tr-modname'),
     _m('chained-tmpvar-assignment-nonblocking', T.GEN[2], "    if has_tmpvar:\n      return True\n    else:\n      return super().get_blocking(node, bir_node)",
        "    if has_tmpvar and len(bir_node.targets) == 1:\n      return True\n    else:\n      return super().get_blocking(node, bir_node)", 'R-tr-assign'),
+    dict(name='dedup-set-survives-translate', rule='R-tr-dedup-scope', edits=[
+        dict(file=T.G_RTLIR_TR, old="        if name not in components:\n", new="        if name not in s._generated_modules:\n          s._generated_modules.add( name )\n", count=1),
+        dict(file=T.G_RTLIR_TR, old="      s.clear( tr_top, tr_cfgs )\n", new="      s.clear( tr_top, tr_cfgs )\n      if not hasattr( s, '_generated_modules' ):\n        s._generated_modules = set()\n", count=1)]),
     _m('yosys-loop-bounds-swapped', YB2, "v = loop_var, s = start, t = end, stp = step_abs,", "v = loop_var, s = end, t = start, stp = step_abs,", 'R-tr-for'),
     _m('yosys-block-drops-inherited-body', YB1, "    upblk = super().visit_CombUpblk( node )\n    return s.get_loopvars() + upblk",
        "    upblk = super().visit_CombUpblk( node )\n    return upblk + s.get_loopvars()", 'R-tr-assign'),
@@ -165,6 +181,10 @@ MUTANTS = [
 ]
 
 EQUIV = [
+    _m('port-binding-padded-by-spec', YS4, 'p_conn_tplt = ".{port_id: <15}( {port_wire_id} )"', 'p_conn_tplt = ".{port_id: <15}( {port_wire_id:^25} )"'),
+    _m('ifc-member-array-type-reset-first', YS3, "          if isinstance( _rtype, rt.Array ):\n            array_type = _rtype\n            rtype = _rtype.get_sub_type()\n          else:\n            array_type = None\n            rtype = _rtype\n          ret += s.rtlir_tr_interface_port_decl(",
+       "          array_type, rtype = None, _rtype\n          if isinstance( _rtype, rt.Array ):\n            array_type = _rtype\n            rtype = _rtype.get_sub_type()\n          ret += s.rtlir_tr_interface_port_decl("),
+    _m('components-dict-by-constructor-call', T.G_RTLIR_TR, "      s.hierarchy.components = {}\n", "      s.hierarchy.components = dict()\n"),
     # loop / comprehension / map spellings of `one value per item, in order`
     _m('connections-as-comprehension', T.G_S1,
        "    connections = []\n    _connections = m.get_metadata( StructuralRTLIRGenL1Pass.connections )\n    for writer, reader in _connections:\n"
